@@ -61,11 +61,7 @@ class BrownianHooks(Hooks):
             spawn = kwargs.get("spawn_key", ())
             pool = kwargs.get("pool_size")
 
-            def generate_state(it, a, k, n, f):
-                cnt = int(a[0])
-                return [nf.fn("SEED", ent, tuple(spawn) if isinstance(spawn, (tuple, list)) else spawn, pool,
-                              Fraction(cnt), Fraction(i)) for i in range(cnt)]
-            return Obj("SeedSequence", attrs={"generate_state": Intrinsic("generate_state", generate_state)})
+            return _seed_sequence(ent, tuple(spawn) if isinstance(spawn, (tuple, list)) else spawn, pool)
         if dotted == "torch.zeros":
             self.zeros_calls.append((args, kwargs, node))
             return Rat.const(0)
@@ -110,6 +106,27 @@ class BrownianHooks(Hooks):
         if name in ("dtype", "device"):
             return name
         return NotImplemented
+
+
+def _seed_sequence(ent, spawn, pool):
+    """numpy's SeedSequence: generate_state is a pure function of (entropy, spawn_key, pool_size); spawn is *stateful*
+    -- every call hands out children numbered by how many were spawned before (n_children_spawned) -- which is exactly
+    why a seed derived through it depends on the order of requests."""
+    obj = Obj("SeedSequence", attrs={"_n_children_spawned": 0})
+
+    def generate_state(it, a, k, n, f):
+        cnt = int(a[0] if a else k.get("n_words"))
+        return [nf.fn("SEED", ent, spawn, pool, Fraction(cnt), Fraction(i)) for i in range(cnt)]
+
+    def spawn_children(it, a, k, n, f):
+        cnt = int(a[0] if a else k.get("n_children"))
+        first = obj.attrs["_n_children_spawned"]
+        obj.attrs["_n_children_spawned"] = first + cnt
+        base = spawn if isinstance(spawn, tuple) else (spawn,)
+        return [_seed_sequence(ent, base + (Fraction(first + i),), pool) for i in range(cnt)]
+    obj.attrs["generate_state"] = Intrinsic("generate_state", generate_state)
+    obj.attrs["spawn"] = Intrinsic("spawn", spawn_children)
+    return obj
 
 
 def identity_round():
